@@ -22,6 +22,13 @@ func init() {
 			}
 			c11Concurrent(r, 13000000+i)
 		})
+		vk.Parallel(scale(r, 2000, 100000), 8, func(i int) {
+			if r.Skip(14000000 + i) {
+				return
+			}
+			c11ResultTypes(r, 14000000+i)
+		})
+		r.Rule += " Plus result types with nil/zero values (any, error, interfaces, pointers, slices, maps, string, struct{}; Get and Run entry points; entries preloaded or stored by an execution): an entry holding a nil or zero value is an entry - the next execution with its key must be a hit (function not invoked, value returned, hit and no miss event, no new Set)."
 		r.Rule += " Plus concurrent rounds: 2-18 goroutines with 2-6 different context keys overlap on one cache policy; every value encodes the key it was produced for, so a value served or stored under another key is a violation."
 	})
 	register("C16", func(r *vk.Report) {
